@@ -170,6 +170,7 @@ def main(tier):
     _custom_part(chk, tier)
     _parser_part(chk, tier)
     _lexer_part(chk, tier, cases)
+    _pump_part(chk, tier)
     return chk.finish()
 
 
@@ -277,3 +278,80 @@ def _lexer_part(chk, tier, cases):
     for rid, exp in rej[:40]:
         chk.drift.append({'lexer_model_disagrees': ev[rid]['css'], 'real': [(t['k'], t['a'], t['b']) for t in ev[rid]['toks']],
                           'lexerr': ev[rid]['lexerr'], 'spec': (exp or '')[:260]})
+
+
+# ---- pumping: the repetitions of the lexical grammar, far beyond what TLC enumerates --------------------------------------------
+# (prefix, unit, suffix): unit sits inside a "*" / "+" / "{4,}" repetition of one token of Lexer.tla
+PUMP = [(':nth-child(', '9', ')'), (':nth-child(2n+', '9', ')'), (':nth-child(', '9', 'n+1)'), (':nth-of-type(-', '0', '1)'), (':nth-last-child(2n - ', '0', ')'),
+        (':nth-child(2n+1 of a', 'a', ')'), (':nth-last-of-type(', '7', 'n)'), ('a', 'b', ''), ('.', 'x', ''), ('#a', '-', ''), ('[a', '_', ']'), ('[a=', 'v', ']'),
+        ('[a="', 'v', '"]'), ("[a='", ' ', "']"), (':is(', ' ', 'a)'), ('a', ' ', '> b'), ('a ', '/**/', ' b'), ('a /*', 'x', '*/ b'), ('a /*', '*', '*/ b'), ('[a="', '\\41 ', '"]'),
+        ('', '\\41 ', ''), ('', '\\+', ''), (':lang(', 'e', ')'), (':lang("', 'e', '")'), (':lang(en', ' ', ', de)'), (':-soup-contains("', 'x', '")'), (':--', 'x', ''),
+        (':nth-child(2n', ' ', '+1)'), (':nth-child(2n+1', ' ', ' of a)'), ('a:', 'x', ''), ('@p', 'p', ''), ('::', 'x', ''), ('a', '\n', 'b'), ('[a="', '\\\n', '"]'),
+        ('[a=b', '/**/', ' i]'), (':dir(', ' ', 'ltr)'), ('ns', 's', '|a'), ('[ns', 's', '|a]'), ('/*', '/', ''), ('"', 'a', ''), ('[a="', "'", ''), ('a', '$', ''),
+        ('9', '9', ''), ('-', '-', 'a'), ('a', '\x00', ''), ('[a=', '\\0', ']'), ('.a', '\\110000', '')]
+
+
+def _pump_work(H, chunk):
+    sv = H['sv']
+    out = []
+    for (k, pre, unit, suf, ns) in chunk:
+        base = _outcome(sv, pre + unit + suf, namespaces={'ns': 'urn:n'})
+        for n in ns:
+            out.append((k, n, base, _outcome(sv, pre + unit * n + suf, namespaces={'ns': 'urn:n'})))
+    return out
+
+
+def _pump_part(chk, tier):
+    """Lexer.tla reads the repetitions of the token grammar (digit runs, identifier characters, white space, comment and string bodies)
+    with recursive scanners that have no length bound: TLC checks for N <= MaxN that pumping such a run leaves the token kinds unchanged
+    (PumpInvariant), so by Parser.tla - a function of the token kinds - the outcome does not depend on N in the model.  The code is then run with the
+    same sites pumped to thousands of repetitions (where e.g. CPython's 4300-digit int() limit lives): gated is C06 itself (only documented errors); an outcome that changes with N is
+    recorded as drift from the model."""
+    import os
+    import shutil
+    import tempfile
+    import multiprocessing as mp
+    tmpd = tempfile.mkdtemp(prefix='verif_c06p_')
+    try:
+        for m in ('Lexer.tla', 'Str.tla'):
+            shutil.copy(os.path.join(tlc.SPEC_DIR, m), tmpd)
+        cp = lambda t: '<< ' + ', '.join(str(ord(c)) for c in t) + ' >>'
+        with open(os.path.join(tmpd, 'MC_C06_pump.tla'), 'w') as f:
+            f.write('---- MODULE MC_C06_pump ----\n\\* generated from PUMP in checks/c06.py: pumping a repetition inside one token\nEXTENDS Lexer, TLC\n'
+                    'CONSTANT MaxN\nVARIABLES site, n\n'
+                    'Sites == << %s >>\n'
+                    'RECURSIVE Rep(_, _)\nRep(u, k) == IF k = 0 THEN <<>> ELSE u \\o Rep(u, k - 1)\n'
+                    'Text(s, k) == s.pre \\o Rep(s.unit, k) \\o s.suf\n'
+                    'Init == site \\in 1..Len(Sites) /\\ n = 1\nNext == n < MaxN /\\ n\' = n + 1 /\\ UNCHANGED site\n'
+                    'PumpInvariant == KindsRel(Text(Sites[site], n)) = KindsRel(Text(Sites[site], 1)) /\\ (Lex(Text(Sites[site], n)).err = 0) = (Lex(Text(Sites[site], 1)).err = 0)\n====\n'
+                    % ',\n  '.join('[pre |-> %s, unit |-> %s, suf |-> %s]' % (cp(a), cp(u), cp(b)) for a, u, b in PUMP))
+        with open(os.path.join(tmpd, 'pump.cfg'), 'w') as f:
+            f.write('CONSTANTS\n MaxN = %d\nINIT Init\nNEXT Next\nINVARIANT PumpInvariant\nCHECK_DEADLOCK FALSE\n' % (6 if tier == 'quick' else 24))
+        res = tlc.run('MC_C06_pump', cfg='pump', cwd=tmpd, workers=8)
+        chk.add_tlc(res, 'pump')
+        if res.violation:
+            chk.machinery('MC_C06_pump: a PUMP site of checks/c06.py is not a repetition inside one token (%s)' % res.violated_name)
+            return
+    finally:
+        shutil.rmtree(tmpd, ignore_errors=True)
+    ns = [2, 7, 100, 4299, 4300, 4301, 5000] + ([20000] if tier == 'quick' else [20000, 100000])
+    jobs = [(k, a, u, b, ns) for k, (a, u, b) in enumerate(PUMP)]
+    with mp.get_context('fork').Pool(16, initializer=replay._ginit, initargs=([], _init)) as pool:
+        outs = pool.map(replay._gwork, [(_pump_work, [j]) for j in jobs])
+    n = 0
+    for out in outs:
+        for (k, rep, base, got) in out:
+            n += 1
+            a, u, b = PUMP[k]
+            brief = '%r + %r*%d + %r' % (a, u, rep, b)
+            if got != 'ok' and got not in ALLOWED:
+                chk.violation('pump|%d|%s' % (k, got.split(':')[0]), 'compile(%s) raised %s' % (brief, got),
+                              {'cfg': 'pump', 'pre': a, 'unit': u, 'suf': b, 'n': rep, 'group': 'pump ' + got.split(':')[0]})
+            elif got != base:
+                # allowed by C06 (a documented error); the model says the token kinds are the same, so record where the code departs from it
+                chk.drift.append({'pump_outcome_depends_on_run_length': brief, 'one_repetition': base, 'pumped': got})
+            if got != 'ok':
+                chk.add_distinct(1)
+    chk.count(n, traces=n)
+    chk.notes['pump'] = {'sites': len(PUMP), 'repetitions': ns}
+    chk.sample({'pumped': '%r + %r*N + %r' % PUMP[0], 'N': ns}, cap=14)
